@@ -383,33 +383,36 @@ def target_commit(case, op, pre):
     return refs.get(op.get("branch") or "refs/heads/master")
 
 
-def parse_status_z(s):
-    """git status --porcelain=v1 -z -> [(XY, path)] (no renames are detected for these repositories)"""
-    out = []
+def parse_status_v2(s):
+    """git status --porcelain=v2 --branch -z -> (head oid or None, [(kind, XY, path)])
+    kind: '1' ordinary change, '2' rename/copy, 'u' unmerged, '?' untracked"""
+    oid, out = None, []
     toks = s.split("\0")
     i = 0
     while i < len(toks):
         t = toks[i]
         i += 1
-        if len(t) < 4:
-            continue
-        xy, p = t[:2], t[3:]
-        if xy[0] in "RC":
-            i += 1
-        out.append((xy, p))
-    return out
-
-
-def parse_ls_z(s):
-    """git ls-files -s -z -> {path: (mode, sha, stage)}"""
-    out = {}
-    for t in s.split("\0"):
         if not t:
             continue
-        meta, p = t.split("\t", 1)
-        mode, sha, stage = meta.split(" ")
-        out[p] = (mode, sha, stage)
-    return out
+        if t.startswith("# branch.oid "):
+            oid = t[len("# branch.oid "):]
+            if oid == "(initial)":
+                oid = None
+        elif t.startswith("#"):
+            continue
+        elif t.startswith("1 "):
+            f = t.split(" ", 8)
+            out.append(("1", f[1], f[8]))
+        elif t.startswith("2 "):
+            f = t.split(" ", 9)
+            out.append(("2", f[1], f[9]))
+            i += 1
+        elif t.startswith("u "):
+            f = t.split(" ", 10)
+            out.append(("u", f[1], f[10]))
+        elif t.startswith("? "):
+            out.append(("?", "??", t[2:]))
+    return oid, out
 
 
 GITMODE = {"f": "100644", "x": "100755", "l": "120000"}
